@@ -187,7 +187,7 @@ def run(ctx: Ctx):
             cfg.chain = ctx.rng.randint(3, 25 if ctx.thorough else 10)
         if k % 5 == 0:
             cfg.depth = 5
-        if k % 9 == 4:
+        if k % 9 in (4, 7):
             # crafted: conditionals and relations as operands inside the branches of a top-level conditional
             from . import backends as _be
             case = _be.cond_extra(ctx)
